@@ -1,10 +1,10 @@
 #!/usr/bin/env python3
-"""py2coq_numpy.py — twelfth translation target of tools/py2coq.py: the in-place butterfly of application/matrix_decomposition.py
-(matrix_decomposition_diagonal: a while loop over the stride h, a for loop over the blocks, slice reads and slice assignments on one array).
+"""py2coq_numpy.py — twelfth translation target of tools/py2coq.py: all of application/matrix_decomposition.py — the in-place butterflies
+(a while loop over the stride h, a for loop over the blocks, slice reads and slice assignments on one array) and the Pauli-order vectorisation
+(_pauli_ord: recursion, element and slice stores on two index arrays; _mat_to_vec: the gather).
 
-Contracts (numpy; trusted): a 1-D ndarray is (its ndim, the list of its entries); the 2-D argument of matrix_decomposition is read only through ndim, shape[0], shape[1]
-and _mat_to_vec(matrix) — the Pauli-order vectorisation (Model/Decomp.vec; its source, a recursion over index arrays, is pinned and compared by the differential check) —
-which are the four parameters of the translation; 1j * v multiplies every entry by i; x.shape[0] is the number of entries (the code reads it only after
+Contracts (numpy; trusted): a 1-D ndarray is (its ndim, the list of its entries); the 2-D argument of matrix_decomposition is (ndim, shape[0], shape[1], the row-major list of
+its entries — what matrix.reshape(-1) hands over); _mat_to_vec and _pauli_ord (a recursion over two int64 index arrays, a gather) are translated too (class IProc below); 1j * v multiplies every entry by i; x.shape[0] is the number of entries (the code reads it only after
 it has checked ndim == 1); x.astype(np.complex128) is a copy with the same values; b[a:c] reads the entries a..c-1 (Python's clamping), as a value —
 the right-hand sides of `b[..], b[..] = e1, e2` are evaluated completely before the first store, so that x, y being views of b does not matter;
 `b[a:c] = v` replaces those entries and raises ValueError when v has another length; + and - are entry-wise on arrays of one length (ValueError
@@ -42,7 +42,7 @@ class NFn(SFn):
         a = self.arr[0]
         # a 2-D array that is only read through ndim, shape and _mat_to_vec: (ndim, shape[0], shape[1], _mat_to_vec(matrix))
         self.two_d = any(isinstance(x, ast.Call) and ast.unparse(x.func) == "_mat_to_vec" for x in ast.walk(node))
-        self.params = {a + "_ndim": Z, a + "_shape0": Z, a + "_shape1": Z, a + "_vec": VEC} if self.two_d else {a + "_ndim": Z, a: VEC}
+        self.params = {a + "_ndim": Z, a + "_shape0": Z, a + "_shape1": Z, a + "_flat": VEC} if self.two_d else {a + "_ndim": Z, a: VEC}
         self.ret = VEC
         self.fuel = True
 
@@ -53,7 +53,6 @@ class NFn(SFn):
         if src == a + ".ndim": return "v_%s_ndim" % a, Z, []
         if self.two_d:
             if src in (a + ".shape[0]", a + ".shape[1]"): return "v_%s_shape%s" % (a, src[-2]), Z, []
-            if src == "_mat_to_vec(%s)" % a: return "v_%s_vec" % a, VEC, []
             if isinstance(e, ast.Name) and e.id == a: bad(e, "the matrix itself is read (only ndim, shape and _mat_to_vec(matrix) are modelled)")
         if isinstance(e, ast.BinOp) and isinstance(e.op, ast.Mult) and isinstance(e.left, ast.Constant) and e.left.value == 1j:
             c, t, g = E(e.right)
@@ -93,6 +92,12 @@ class NFn(SFn):
         if stmts:
             s, rest = stmts[0], stmts[1:]
             R = lambda env2: self.block(rest, env2, nar, k)
+            # b = _mat_to_vec(matrix): the translated helper, on shape[0] and the row-major entries
+            if self.two_d and isinstance(s, ast.Assign) and len(s.targets) == 1 and isinstance(s.targets[0], ast.Name) and ast.unparse(s.value) == "_mat_to_vec(%s)" % self.arr[0]:
+                a = self.arr[0]
+                al, env2 = self.assign_alias(s.targets[0].id, VEC, s, env)
+                body, e3 = self.block(rest, env2, frozenset(set(nar) - {s.targets[0].id}), k)
+                return "(bindr (py_N__mat_to_vec fuel v_%s_shape0 v_%s_flat) (fun r_ => let v_%s := r_ in %s))" % (a, a, al, body), e3
             # b[a:c], b[c:d] = e1, e2
             if isinstance(s, ast.Assign) and len(s.targets) == 1 and isinstance(s.targets[0], ast.Tuple) and all(isinstance(t, ast.Subscript) and isinstance(t.slice, ast.Slice) for t in s.targets[0].elts) \
                and isinstance(s.value, ast.Tuple) and len(s.value.elts) == len(s.targets[0].elts):
@@ -143,6 +148,166 @@ class NFn(SFn):
         return SFn.assigned_in(stmts)
 
 
+class IProc:
+    """_pauli_ord / _mat_to_vec: straight-line procedures over int64 index arrays (one `if … return`, a recursive call, element stores, slice
+    stores, broadcasting int arithmetic, one fancy index).  Contracts (numpy; trusted): an int64 array is the list of its entries (wrap-around at 2^63
+    is not modelled: every value is below 4^n, the number of entries of an array that exists); `a[i], b[j] = c, d` stores in order after evaluating the
+    right-hand side, IndexError outside the array; `a[lo:hi] = v` as in the butterflies (a v of another length is ValueError; numpy's broadcasting of a
+    one-element v is not modelled); `a[:e]`, `a[lo:hi]` are values; array + int and int * array act entry-wise, array + array on equal lengths;
+    `np.zeros(e, dtype=np.int64)` is e zeros (ValueError for e < 0); `x << y` is ValueError for y < 0; `x ** y` leaves the integers for y < 0;
+    `int(x).bit_length()`; `matrix.reshape(-1)` is the row-major list of the entries of the 2-D array, `flat[index_array]` picks entries
+    (IndexError outside; negative indices count from the end); `.astype(np.complex128)` keeps the values.  A call of the procedure itself on
+    its own array parameters mutates them in place: the callee's final arrays are rebound.  Recursion is on fuel."""
+    def __init__(self, node, coq, kind):
+        self.node, self.coq, self.kind, self.name = node, coq, kind, node.name
+        self.ints, self.arrs, self.vecs = set(), set(), set()
+        if kind == "proc":
+            if [ast.unparse(a.annotation) for a in node.args.args] != ["np.ndarray", "np.ndarray", "int"] or ast.unparse(node.returns) != "None": bad(node, "signature of %s" % node.name)
+            self.aparams = [a.arg for a in node.args.args[:2]]; self.iparam = node.args.args[2].arg
+            self.arrs |= set(self.aparams); self.ints.add(self.iparam)
+            self.ret = "(list Z * list Z)"
+        else:
+            if [ast.unparse(a.annotation) for a in node.args.args] != ["np.ndarray"] or ast.unparse(node.returns) != "np.ndarray": bad(node, "signature of %s" % node.name)
+            self.mat = node.args.args[0].arg
+            self.ret = "(list num)"
+
+    def iexpr(self, e):
+        """-> (coq, guards)"""
+        if isinstance(e, ast.Constant) and type(e.value) is int: return ("%d" % e.value if e.value >= 0 else "(%d)" % e.value), []
+        if isinstance(e, ast.Name) and e.id in self.ints: return "v_" + e.id, []
+        if self.kind == "fn" and ast.unparse(e) == self.mat + ".shape[0]": return "v_%s_shape0" % self.mat, []
+        if isinstance(e, ast.Call) and ast.unparse(e.func) == "int" and len(e.args) == 1 and not e.keywords: return self.iexpr(e.args[0])
+        if isinstance(e, ast.Call) and isinstance(e.func, ast.Attribute) and e.func.attr == "bit_length" and not e.args and not e.keywords:
+            c, g = self.iexpr(e.func.value)
+            return "(bit_lengthZ %s)" % c, g
+        if isinstance(e, ast.BinOp):
+            x, gx = self.iexpr(e.left); y, gy = self.iexpr(e.right)
+            if isinstance(e.op, ast.Add): return "(%s + %s)" % (x, y), gx + gy
+            if isinstance(e.op, ast.Sub): return "(%s - %s)" % (x, y), gx + gy
+            if isinstance(e.op, ast.Mult): return "(%s * %s)" % (x, y), gx + gy
+            if isinstance(e.op, ast.LShift): return "(Z.shiftl %s %s)" % (x, y), gx + gy + [("(0 <=? %s)" % y, 'FRaised (EUser "ValueError"%string)')]
+            if isinstance(e.op, ast.Pow): return "(%s ^ %s)" % (x, y), gx + gy + [("(0 <=? %s)" % y, "FNonInt")]
+        bad(e, "integer expression %s" % ast.unparse(e))
+
+    def is_int(self, e):
+        try:
+            self.iexpr(e); return True
+        except Unsupported:
+            return False
+
+    def aexpr(self, e):
+        """int-array expression -> (coq, guards)"""
+        VE = 'FRaised (EUser "ValueError"%string)'
+        if isinstance(e, ast.Name) and e.id in self.arrs: return "v_" + e.id, []
+        if isinstance(e, ast.Subscript) and isinstance(e.slice, ast.Slice) and e.slice.step is None and isinstance(e.value, ast.Name) and e.value.id in self.arrs:
+            a = "v_" + e.value.id
+            if e.slice.lower is None and e.slice.upper is not None:
+                hi, g = self.iexpr(e.slice.upper); return "(slice_to %s %s)" % (a, hi), g
+            if e.slice.lower is not None and e.slice.upper is not None:
+                lo, g1 = self.iexpr(e.slice.lower); hi, g2 = self.iexpr(e.slice.upper); return "(slice_range %s %s %s)" % (a, lo, hi), g1 + g2
+        if isinstance(e, ast.Call) and ast.unparse(e.func) == "np.zeros" and len(e.args) == 1 and [(k.arg, ast.unparse(k.value)) for k in e.keywords] == [("dtype", "np.int64")]:
+            c, g = self.iexpr(e.args[0])
+            return "(repeat 0 (Z.to_nat %s))" % c, g + [("(0 <=? %s)" % c, VE)]
+        if isinstance(e, ast.BinOp) and isinstance(e.op, (ast.Add, ast.Mult)):
+            li, ri = self.is_int(e.left), self.is_int(e.right)
+            op = "+" if isinstance(e.op, ast.Add) else "*"
+            if li and not ri:
+                c, g1 = self.iexpr(e.left); a, g2 = self.aexpr(e.right)
+                return "(map (fun x_ => %s %s x_) %s)" % (c, op, a), g1 + g2
+            if ri and not li:
+                a, g1 = self.aexpr(e.left); c, g2 = self.iexpr(e.right)
+                return "(map (fun x_ => x_ %s %s) %s)" % (op, c, a), g1 + g2
+            if not li and not ri:
+                a, g1 = self.aexpr(e.left); b, g2 = self.aexpr(e.right)
+                return "(map (fun p_ => fst p_ %s snd p_) (combine %s %s))" % (op, a, b), g1 + g2 + [("(Nat.eqb (length %s) (length %s))" % (a, b), VE)]
+        bad(e, "index-array expression %s" % ast.unparse(e))
+
+    @staticmethod
+    def guard(gs, txt):
+        for g, o in reversed(gs):
+            txt = "(if %s then %s else %s)" % (g, txt, o)
+        return txt
+
+    def fallthrough(self):
+        return "(FRet (%s))" % ", ".join("v_" + a for a in self.aparams) if self.kind == "proc" else "(FNone)"
+
+    def block(self, stmts):
+        if not stmts: return self.fallthrough()
+        s, rest = stmts[0], stmts[1:]
+        if isinstance(s, ast.Expr) and isinstance(s.value, ast.Constant): return self.block(rest)
+        VE = 'FRaised (EUser "ValueError"%string)'
+        if isinstance(s, ast.If) and not s.orelse and isinstance(s.test, ast.Compare) and len(s.test.ops) == 1 and isinstance(s.test.ops[0], ast.Eq):
+            x, g1 = self.iexpr(s.test.left); y, g2 = self.iexpr(s.test.comparators[0])
+            if not any(isinstance(n, ast.Return) for n in s.body[-1:]): bad(s, "an if that falls through")
+            return self.guard(g1 + g2, "(if (%s =? %s) then %s else %s)" % (x, y, self.block(s.body), self.block(rest)))
+        if isinstance(s, ast.Return):
+            if s.value is None:
+                if self.kind != "proc": bad(s, "bare return")
+                return "(FRet (%s))" % ", ".join("v_" + a for a in self.aparams)
+            if self.kind == "fn" and isinstance(s.value, ast.Call) and ast.unparse(s.value.func).endswith(".astype") and ast.unparse(s.value.args[0]) == "np.complex128" and len(s.value.args) == 1:
+                inner = s.value.func.value
+                if isinstance(inner, ast.Subscript) and ast.unparse(inner.value) == self.mat + ".reshape(-1)":
+                    ix, g = self.aexpr(inner.slice)
+                    return self.guard(g, "(if forallb (idx_ok v_%s_flat) %s then FRet (map (list_get ((0, 0), O) v_%s_flat) %s) else FRaised EIndex)" % (self.mat, ix, self.mat, ix))
+            bad(s, "return value")
+        if isinstance(s, ast.Expr) and isinstance(s.value, ast.Call) and isinstance(s.value.func, ast.Name) and not s.value.keywords:
+            f = s.value.func.id
+            callee = PROCS.get(f)
+            if callee is None or callee.kind != "proc" or len(s.value.args) != 3: bad(s, "call of %s" % f)
+            a0, a1 = s.value.args[0], s.value.args[1]
+            if not (isinstance(a0, ast.Name) and isinstance(a1, ast.Name) and a0.id in self.arrs and a1.id in self.arrs and a0.id != a1.id): bad(s, "array arguments of %s" % f)
+            c, g = self.iexpr(s.value.args[2])
+            return self.guard(g, "(match %s fuel v_%s v_%s %s with FRet (r0_, r1_) => let v_%s := r0_ in let v_%s := r1_ in %s | FNone => FNone | FRaised e_ => FRaised e_ | FNonInt => FNonInt | FOutOfFuel => FOutOfFuel end)" % (
+                callee.coq, a0.id, a1.id, c, a0.id, a1.id, self.block(rest)))
+        if isinstance(s, ast.Assign) and len(s.targets) == 1:
+            tg, v = s.targets[0], s.value
+            if isinstance(tg, ast.Name):
+                if self.is_int(v):
+                    if tg.id in self.arrs: bad(s, "%s changes type" % tg.id)
+                    c, g = self.iexpr(v)
+                    txt = self.guard(g, "(let v_%s := %s in \0)" % (tg.id, c))
+                    self.ints.add(tg.id)
+                    return txt.replace("\0", self.block(rest))
+                if tg.id in self.ints: bad(s, "%s changes type" % tg.id)
+                c, g = self.aexpr(v)
+                txt = self.guard(g, "(let v_%s := %s in \0)" % (tg.id, c))
+                self.arrs.add(tg.id)
+                return txt.replace("\0", self.block(rest))
+            if isinstance(tg, ast.Tuple) and isinstance(v, ast.Tuple) and len(tg.elts) == len(v.elts) and all(isinstance(t, ast.Subscript) and not isinstance(t.slice, ast.Slice) and isinstance(t.value, ast.Name) and t.value.id in self.arrs for t in tg.elts):
+                vals = [self.iexpr(x) for x in v.elts]
+                gs = [g for _, gg in vals for g in gg]
+                txt = self.block(rest)
+                stores = []
+                for i, t in enumerate(tg.elts):
+                    ix, g = self.iexpr(t.slice)
+                    stores.append((t.value.id, ix, g, "rhs%d_" % i))
+                for a, ix, g, nm in reversed(stores):
+                    txt = self.guard(g, "(if idx_ok v_%s %s then (let v_%s := list_set v_%s %s %s in %s) else FRaised EIndex)" % (a, ix, a, a, ix, nm, txt))
+                for i, (c, _) in reversed(list(enumerate(vals))):
+                    txt = "(let rhs%d_ := %s in %s)" % (i, c, txt)
+                return self.guard(gs, txt)
+            if isinstance(tg, ast.Subscript) and isinstance(tg.slice, ast.Slice) and tg.slice.step is None and tg.slice.lower is not None and tg.slice.upper is not None \
+               and isinstance(tg.value, ast.Name) and tg.value.id in self.arrs:
+                a = tg.value.id
+                c, g = self.aexpr(v)
+                lo, g1 = self.iexpr(tg.slice.lower); hi, g2 = self.iexpr(tg.slice.upper)
+                return self.guard(g + g1 + g2, "(let rhs_ := %s in if Nat.eqb (length rhs_) (length (slice_range v_%s %s %s)) then (let v_%s := slice_assign v_%s %s %s rhs_ in %s) else %s)" % (
+                    c, a, lo, hi, a, a, lo, hi, self.block(rest), VE))
+        bad(s, "statement %s" % ast.unparse(s).split("\n")[0])
+
+    def emit(self):
+        PROCS[self.name] = self
+        body = self.block(self.node.body)
+        if self.kind == "proc":
+            ps = " ".join("(v_%s : list Z)" % a for a in self.aparams) + " (v_%s : Z)" % self.iparam
+        else:
+            ps = "(v_%s_shape0 : Z) (v_%s_flat : list num)" % (self.mat, self.mat)
+        rec = (self.coq + " fuel") in body
+        return "%s %s (fuel : nat) %s%s : fres %s :=\n  match fuel with O => FOutOfFuel | S fuel =>\n  %s\n  end." % ("Fixpoint" if rec else "Definition", self.coq, ps, " {struct fuel}" if rec else "", self.ret, body)
+
+PROCS = {}
+
+
 class NumpyTranslator:
     WANT = ["matrix_decomposition_diagonal", "matrix_decomposition"]
     def __init__(self, repo):
@@ -150,15 +315,6 @@ class NumpyTranslator:
         self.tree = ast.parse(open(path, newline=None, encoding="utf-8-sig").read())
         self.fns = {}
         self.defs = {n.name: n for n in self.tree.body if isinstance(n, ast.FunctionDef)}
-        def body_of(n):
-            return [ast.unparse(x) for x in n.body if not (isinstance(x, ast.Expr) and isinstance(x.value, ast.Constant))]
-        want_m2v = ["log2n = int(matrix.shape[0]).bit_length() - 1", "row = np.zeros(4 ** log2n, dtype=np.int64)", "col = np.zeros(4 ** log2n, dtype=np.int64)",
-                    "_pauli_ord(row, col, log2n)", "flat_index = (1 << log2n) * row + col", "return matrix.reshape(-1)[flat_index].astype(np.complex128)"]
-        if "_mat_to_vec" not in self.defs or body_of(self.defs["_mat_to_vec"]) != want_m2v: raise Unsupported("pinned source of _mat_to_vec changed")
-        want_po = ["if n == 1:\n    row[0], col[0] = (0, 0)\n    row[1], col[1] = (1, 1)\n    row[2], col[2] = (0, 1)\n    row[3], col[3] = (1, 0)\n    return", "_pauli_ord(row, col, n - 1)", "pw = 1 << 2 * (n - 1)",
-                   "row[pw:2 * pw] = row[:pw] + (1 << n - 1)", "col[pw:2 * pw] = col[:pw] + (1 << n - 1)", "row[2 * pw:3 * pw] = row[:pw]", "col[2 * pw:3 * pw] = col[:pw] + (1 << n - 1)",
-                   "row[3 * pw:4 * pw] = row[:pw] + (1 << n - 1)", "col[3 * pw:4 * pw] = col[:pw]"]
-        if "_pauli_ord" not in self.defs or body_of(self.defs["_pauli_ord"]) != want_po: raise Unsupported("pinned source of _pauli_ord changed: %r" % (body_of(self.defs.get("_pauli_ord")) if "_pauli_ord" in self.defs else None,))
         if "import numpy as np" not in [ast.unparse(n) for n in self.tree.body if isinstance(n, ast.Import)]: raise Unsupported("numpy is no longer imported as np")
 
     HEADER = """(* GENERATED by tools/py2coq.py (py2coq_numpy.py) from src/paulie/application/matrix_decomposition.py — do not edit *)
@@ -179,10 +335,16 @@ Definition vnimul (x : list num) : list num := map (fun a => (gmul gI (fst a), s
 Definition slice_assign {A} (l : list A) (a c : Z) (v : list A) : list A := firstn (clamp l a) l ++ v ++ skipn (Nat.max (clamp l a) (clamp l c)) l.
 (* range(a, b, s), s > 0 *)
 Definition pyrange_step (a b s : Z) : list Z := map (fun i => a + Z.of_nat i * s) (seq 0 (Z.to_nat ((b - a + s - 1) / s))).
+Definition bit_lengthZ (k : Z) : Z := match k with Z0 => 0 | Zpos p | Zneg p => Z.log2 (Zpos p) + 1 end.
 Definition popcountZ (k : Z) : Z := match k with Zpos p => (fix pc (q : positive) : Z := match q with xH => 1 | xO r => pc r | xI r => 1 + pc r end) p | _ => 0 end.
 """
     def run(self):
         out = [self.HEADER]
+        PROCS.clear()
+        for name, kind in (("_pauli_ord", "proc"), ("_mat_to_vec", "fn")):
+            node = self.defs.get(name)
+            if node is None: raise Unsupported("%s not found in the source" % name)
+            out.append(IProc(node, "py_N_" + name, kind).emit()); out.append("")
         for name in self.WANT:
             node = self.defs.get(name)
             if node is None: raise Unsupported("%s not found in the source" % name)
